@@ -75,6 +75,27 @@ fn alphabet() -> Vec<Q> {
         r("RETURN 1 +\n2"),
         r("RETURN 1 + 2 AS s"),
         r("RETURN 1  +  2  AS  s"),
+        // multi-word operators and clause keywords with whitespace runs BETWEEN their words: the cache
+        // key collapses the run, so both spellings share one cached AST, and must mean the same
+        r("MATCH (n:P) WHERE n.v IS NOT NULL RETURN count(n)"),
+        r("MATCH (n:P) WHERE n.v IS  NOT NULL RETURN count(n)"),
+        r("MATCH (n:P) WHERE n.v IS\nNOT\tNULL RETURN count(n)"),
+        r("MATCH (n:P) WHERE n.v IS NOT  NULL RETURN count(n)"),
+        r("MATCH (n:P) WHERE n.v IS NULL RETURN count(n)"),
+        r("MATCH (n:P) WHERE n.v IS  NULL RETURN count(n)"),
+        r("MATCH (n:P) WHERE n.v STARTS WITH 'x' RETURN count(n)"),
+        r("MATCH (n:P) WHERE n.v STARTS  WITH 'x' RETURN count(n)"),
+        r("MATCH (n:P) WHERE n.v ENDS\n WITH 'y' RETURN count(n)"),
+        r("MATCH (n:P) WHERE NOT  n.v = 'x y' RETURN count(n)"),
+        r("MATCH (n:P) WHERE NOT n.v = 'x y' RETURN count(n)"),
+        r("MATCH (n:P) RETURN n.v ORDER  BY n.v DESC LIMIT 1"),
+        r("MATCH (n:P) RETURN n.v ORDER BY n.v  DESC LIMIT 1"),
+        r("MATCH (n:P) RETURN n.v ORDER BY n.v LIMIT 1"),
+        r("OPTIONAL  MATCH (n:Q) RETURN count(n)"),
+        r("OPTIONAL MATCH (n:Q) RETURN count(n)"),
+        r("MATCH (n:P) RETURN DISTINCT  n.v"),
+        r("MATCH (n:P) WHERE n.v IN  ['x y'] RETURN count(n)"),
+        r("MATCH (n:P) WHERE n.v IN ['x y'] RETURN count(n)"),
         // backtick-quoted names: whitespace inside them is part of the name
         r("RETURN 1 AS `a b`"),
         r("RETURN 1 AS `a  b`"),
